@@ -41,14 +41,30 @@ const (
 	tMethod
 	tDescription
 	tCount
+	// templates with schema bodies (need the schema library: harness option full_schema_lib)
+	tEnum = iota
+	tTypeObj
+	tTypeAllOf
+	tRespRef
+	tURLParam
+	tPathDir
+	tRequestObj
+	tTypeNested
 )
 
 var verifTplNames = []string{"JSIGHT", "INFO", "Title", "Version", "SERVER", "BaseUrl", "URL", "GET", "POST", "GET /p", "Request any",
 	"200 any", "404 any", "Body any", "TYPE any", "MACRO", "PASTE", "TAG", "Tags", "Protocol", "Method", "Description"}
 
+// verifLetters is the size of the name alphabet: {a,b} or {a,b,c}.
+var verifLetters = 2
+
 func verifLetter(name string) string {
 	b := verifrt.Byte(name)
-	verifrt.Assume(b == 'a' || b == 'b')
+	if verifLetters >= 3 {
+		verifrt.Assume(b == 'a' || b == 'b' || b == 'c')
+	} else {
+		verifrt.Assume(b == 'a' || b == 'b')
+	}
 	return string([]byte{b})
 }
 
@@ -56,7 +72,7 @@ func verifLetter(name string) string {
 func verifLine(t int) (string, string) {
 	l := ""
 	switch t {
-	case tServer, tURL, tGetPath, tTypeAny, tMacro, tPaste, tTag, tTags, tMethod, tDescription:
+	case tServer, tURL, tGetPath, tTypeAny, tMacro, tPaste, tTag, tTags, tMethod, tDescription, tEnum, tTypeObj, tTypeAllOf, tRespRef, tURLParam, tTypeNested:
 		l = verifLetter("l")
 	}
 	return verifLineWith(t, l), l
@@ -108,6 +124,36 @@ func verifLineWith(t int, l string) string {
 		return "Method m" + l
 	case tDescription:
 		return "Description\n  text " + l
+	case tEnum:
+		return "ENUM @" + l + " // e\n[1, \"two\"]"
+	case tTypeObj:
+		return "TYPE @" + l + "\n{\"k" + l + "\": 1}"
+	case tTypeAllOf:
+		// inherits from the "next" type name: a -> b -> c -> a
+		next := "b"
+		if l == "b" {
+			next = "c"
+		} else if l == "c" {
+			next = "a"
+		}
+		return "TYPE @" + l + "\n{ // {allOf: \"@" + next + "\"}\n  \"own" + l + "\": { // {allOf: \"@" + next + "\"}\n    \"n" + l + "\": 1\n  }\n}"
+	case tTypeNested:
+		// no allOf on the root object, one on a nested object
+		next := "b"
+		if l == "b" {
+			next = "c"
+		} else if l == "c" {
+			next = "a"
+		}
+		return "TYPE @" + l + "\n{\n  \"nest" + l + "\": { // {allOf: \"@" + next + "\"}\n    \"m" + l + "\": 1\n  }\n}"
+	case tRespRef:
+		return "200 @" + l
+	case tURLParam:
+		return "URL /" + l + "/{id}"
+	case tPathDir:
+		return "Path\n{\"id\": 1}"
+	case tRequestObj:
+		return "Request\n{\"r\": 1}"
 	}
 	return ""
 }
@@ -172,6 +218,10 @@ func verifSig(c *catalog.Catalog) []string {
 	})
 	c.UserTypes.EachSafe(func(k string, v *catalog.UserType) {
 		out = append(out, "type "+k+" annotation="+v.Annotation+" notation="+string(v.Schema.Notation))
+		out = append(out, verifSchemaSig("type "+k, &v.Schema)...)
+	})
+	c.UserEnums.EachSafe(func(k string, v *catalog.UserRule) {
+		out = append(out, "enum "+k+" annotation="+v.Annotation)
 	})
 	c.Tags.EachSafe(func(k catalog.TagName, v *catalog.Tag) {
 		line := "tag " + string(k) + " title=" + v.Title
@@ -198,12 +248,18 @@ func verifSig(c *catalog.Catalog) []string {
 			for _, t := range in.Tags {
 				out = append(out, " tag="+string(t))
 			}
+			if in.PathVariables != nil {
+				out = append(out, verifSchemaSig(" pathVariables", &in.PathVariables.Schema)...)
+			}
 			if in.Request != nil {
 				line := " request"
 				if in.Request.HTTPRequestBody != nil {
 					line += " body format=" + string(in.Request.HTTPRequestBody.Format) + " notation=" + string(in.Request.HTTPRequestBody.Schema.Notation)
 				}
 				out = append(out, line)
+				if in.Request.HTTPRequestBody != nil {
+					out = append(out, verifSchemaSig(" request", in.Request.HTTPRequestBody.Schema)...)
+				}
 			}
 			for _, r := range in.Responses {
 				line := " response " + r.Code + " annotation=" + r.Annotation
@@ -211,6 +267,9 @@ func verifSig(c *catalog.Catalog) []string {
 					line += " body format=" + string(r.Body.Format) + " notation=" + string(r.Body.Schema.Notation)
 				}
 				out = append(out, line)
+				if r.Body != nil {
+					out = append(out, verifSchemaSig(" response "+r.Code, r.Body.Schema)...)
+				}
 			}
 		case *catalog.JsonRpcInteraction:
 			out = append(out, " id="+in.Id+" method="+in.Method+" path="+string(in.PathVal)+" annotation="+verifStr(in.Annotation))
@@ -264,7 +323,14 @@ func VerifH_PipelineTotal() {
 	for t := 0; t < tCount; t++ {
 		menu = append(menu, t)
 	}
-	text, _ := verifDoc(menu, k)
+	header := false
+	if verifrt.Bound("MENU") == 1 {
+		// schema-bearing documents, real schema library
+		verifLetters = 3
+		header = true
+		menu = []int{tEnum, tTypeObj, tTypeAllOf, tTypeNested, tGetPath, tRespRef, tURLParam, tPathDir, tRequestObj, tMacro, tPaste}
+	}
+	text, _ := verifDocLines(menu, k, header)
 	verifrt.Note("doc", text)
 	core, je := verifRun(text)
 	if je != nil {
@@ -280,6 +346,9 @@ func VerifH_PipelineTotal() {
 var verifMenuStructure = []int{tInfo, tTitle, tVersion, tServer, tBaseURL, tURL, tGet, tPost, tGetPath, tRequestAny,
 	tResp200, tResp404, tTypeAny, tTag, tTags, tProtocol, tMethod, tDescription}
 
+// a menu focused on tags: declared tags, URL-level and method-level Tags, several methods
+var verifMenuTags = []int{tTag, tURL, tTags, tGet, tPost, tGetPath}
+
 // VerifH_CatalogStructure (C04, C19b, C09c-e): every accepted macro-free
 // document of "JSIGHT 0.3" + K lines yields exactly the catalog the reference
 // model reads off the document: info, servers, types, tags (declared first,
@@ -288,7 +357,17 @@ var verifMenuStructure = []int{tInfo, tTitle, tVersion, tServer, tBaseURL, tURL,
 // the mutual tag <-> interaction references.
 func VerifH_CatalogStructure() {
 	k := verifrt.Bound("K")
-	text, lines := verifDocLines(verifMenuStructure, k, true)
+	menu := verifMenuStructure
+	if verifrt.Bound("MENU") == 1 {
+		menu = verifMenuTags
+	}
+	text, lines := verifDocLines(menu, k, true)
+	if verifrt.Bound("MENU") == 1 {
+		// both tags are declared up front, so that Tags directives at URL and method level are acceptable
+		pre := []refLine{{t: tJsight, parent: -1}, {t: tTag, letter: "a", parent: -1}, {t: tTag, letter: "b", parent: -1}}
+		lines = append(pre, lines[1:]...)
+		text = verifRender(lines)
+	}
 	verifrt.Note("doc", text)
 	core, je := verifRun(text)
 	if je != nil {
@@ -325,6 +404,49 @@ func VerifH_CatalogStructure() {
 			verifrt.Assert("C09.doc.id-is-key", in.Id == k.String())
 		}
 	})
+	nTags := 0
+	for _, ln := range lines {
+		if ln.t == tTags {
+			nTags++
+		}
+	}
+	verifrt.Reach("C19.doc.url-and-method-tags", nTags >= 2 && n >= 1)
 	verifrt.Reach("C04.structure.accepted-with-interaction", n >= 1)
 	verifrt.Reach("C04.structure.accepted", true)
+}
+
+// verifSchemaSig renders the observable content of a JSight schema: the tree of
+// (key, token type, type, inheritedFrom, scalar value) and the used types / enums.
+func verifSchemaSig(prefix string, s *catalog.Schema) []string {
+	var out []string
+	if s == nil || s.ContentJSight == nil {
+		return out
+	}
+	var walk func(p string, c *catalog.SchemaContentJSight)
+	walk = func(p string, c *catalog.SchemaContentJSight) {
+		key := "<root>"
+		if c.Key != nil {
+			key = *c.Key
+		}
+		line := p + " node " + key + " token=" + c.TokenType + " type=" + c.Type + " value=" + c.ScalarValue
+		if c.InheritedFrom != "" {
+			line += " inheritedFrom=" + c.InheritedFrom
+		}
+		out = append(out, line)
+		for _, ch := range c.Children {
+			walk(p+"/"+key, ch)
+		}
+	}
+	walk(prefix, s.ContentJSight)
+	if s.UsedUserTypes != nil {
+		for _, u := range s.UsedUserTypes.Data() {
+			out = append(out, prefix+" usesType "+u)
+		}
+	}
+	if s.UsedUserEnums != nil {
+		for _, u := range s.UsedUserEnums.Data() {
+			out = append(out, prefix+" usesEnum "+u)
+		}
+	}
+	return out
 }
